@@ -6,7 +6,7 @@
   data, the truth tables of `.names` instances, the pins on every net bit, the top model's port list.
   NOT compared (see docs/eblif.md): `Inst.unconn`, instance names when `write_eblif_cname` is off, the
   ports of non-top definitions beyond `eblif_roundtrip_leaf_ports` (port/bit sets when no pin dangles;
-  `leaf_port_shrinks` shows they are NOT preserved in general; directions are not compared), netlist
+  directions are not compared), netlist
   name / top / comments / `.clock`.
 -/
 import Spydr.Eblif.DefsMain
@@ -103,15 +103,16 @@ set_option maxRecDepth 100000 in
 set_option maxHeartbeats 4000000 in
 example : (kidsFull exAny "t").map (·.2) = [3, 2, 0, 1] ∧ CoversNF exAny ∧ CoversNF exFull := by decide
 
-/-- **the interfaces of the instantiated definitions survive write-then-read** when no instance pin
-    dangles: for every child, the definition it instantiates has in the re-read netlist exactly the
-    (port, bit) pairs it has in `n` (same port names, same widths).  Extra hypotheses, all decidable:
-    the pin mirror of `n` (what `pin_mirror` proves for every netlist the reader produces),
-    `NoDangling n` (every instance pin sits on a wire; needed, see `leaf_port_shrinks`), `BBWide`
-    (ports of black-box definitions have a pin).  Port DIRECTIONS of non-top definitions are not
-    compared (a definition without a black-box block comes back with UNDEFINED directions). -/
+/-- **the interfaces of the instantiated definitions survive write-then-read**: for every child, the
+    definition it instantiates has in the re-read netlist exactly the (port, bit) pairs it has in `n`
+    (same port names, same widths).  Extra hypotheses, all decidable: the pin mirror of `n` (what
+    `pin_mirror` proves for every netlist the reader produces), `LatchConnected n` (the pins of
+    `.latch` children sit on wires), `BBWide` (ports of black-box definitions have a pin).
+    This holds for the REPAIRED reader (`parse_subcircuit_port` gives a port pins up to the formal's
+    index also for `unconn` actuals, docs/fixes/eblif_unconn_bus_bit_keeps_width.diff); with the
+    original code upper bus bits that are `unconn` on every instance were lost (`exShrink`). -/
 theorem eblif_roundtrip_leaf_ports (o : Opts) (n : BNet) (t : String) (hw : WellNamed n) (hf : FragFull n t)
-    (hn : NetOKA n t) (hnm : NamesOK o n) (hbp : BBPlain n t) (hpm : n.PinMirror) (hdg : NoDangling n)
+    (hn : NetOKA n t) (hnm : NamesOK o n) (hbp : BBPlain n t) (hpm : n.PinMirror) (hdg : LatchConnected n)
     (hbw : BBWide n t) (n' : BNet) (h : readB (composeText o n) = Except.ok n') :
     ∀ k ∈ kidsFull n t, ∀ pn b,
       (pn, b) ∈ allPins (n'.findDef k.1.model) ↔ (pn, b) ∈ allPins (n.findDef k.1.model) :=
@@ -119,16 +120,15 @@ theorem eblif_roundtrip_leaf_ports (o : Opts) (n : BNet) (t : String) (hw : Well
 
 set_option maxRecDepth 100000 in
 set_option maxHeartbeats 4000000 in
-example : exAny.PinMirror ∧ NoDangling exAny ∧ BBWide exAny "t" ∧ exFull.PinMirror ∧ NoDangling exFull ∧ BBWide exFull "t" := by
+example : exAny.PinMirror ∧ LatchConnected exAny ∧ BBWide exAny "t" ∧ exFull.PinMirror ∧ LatchConnected exFull ∧ BBWide exFull "t" := by
   decide
 
-/-! ### the ports of non-top definitions are NOT always preserved
+/-! ### the regression example of the finding `eblif.unconn-bus-bit-loses-width`
 
-  A leaf definition whose bus port has its upper bits unconnected on every instance comes back
-  narrower: the writer emits `J[1]=unconn J[0]=unconn`, and `parse_subcircuit_port` gives a port at
-  most one more pin per formal while `connect_instance_pins` skips `unconn` actuals, so `J` ends with
-  one pin.  (Same behaviour of the implementation: docs/eblif.md.)  The netlist below satisfies every
-  hypothesis of `eblif_roundtrip_any_order` and the pin mirror, and its re-read has `B.J` of width 1. -/
+  A leaf definition whose bus port has its upper bits unconnected on every instance: the writer emits
+  `J[1]=unconn J[0]=unconn`.  The original `parse_subcircuit_port` gave a port at most one more pin
+  per formal and `connect_instance_pins` skips `unconn` actuals, so `J` came back one pin wide.  With
+  the repaired reader (which the model follows) the port keeps both pins. -/
 
 def exShrink : BNet :=
   { name := some "t", top := some "t", comments := [],
@@ -146,11 +146,11 @@ def portsAfter (r : Except Err BNet) (dn : String) : List (String × Nat) :=
 
 set_option maxRecDepth 100000 in
 set_option maxHeartbeats 4000000 in
-theorem leaf_port_shrinks :
+theorem leaf_port_kept :
     WellNamed exShrink ∧ NetOKA exShrink "t" ∧ NamesOK {} exShrink ∧ BBPlain exShrink "t" ∧ exShrink.PinMirror ∧
-    BBWide exShrink "t" ∧ ¬ NoDangling exShrink ∧
+    BBWide exShrink "t" ∧ LatchConnected exShrink ∧
     ((exShrink.findDef "B").ports.map (fun p => (p.name, p.width)) = [("J", 2), ("O", 1)]) ∧
-    portsAfter (readB (composeText {} exShrink)) "B" = [("J", 1), ("O", 1)] := by decide
+    portsAfter (readB (composeText {} exShrink)) "B" = [("J", 2), ("O", 1)] := by decide
 
 theorem exShrink_frag : FragFull exShrink "t" := by
   refine ⟨rfl, by decide, by decide, by decide, ?_⟩
